@@ -54,6 +54,10 @@ pub enum TimestampError {
 impl Timestamp {
     /// Returns the current timestamp.
     pub fn now() -> Self {
+        #[cfg(rpgp_verif)]
+        if let Some(secs) = crate::verif_hooks::now_override() {
+            return Self(secs);
+        }
         SystemTime::now()
             .try_into()
             .expect("now is too far into the future")
